@@ -37,8 +37,10 @@ def call_builtin(it, fn: VBuiltin, args, kwargs):
             if h is not None:
                 break
     if h is None:
-        if name.startswith("logging.") or name.split(".")[0] in ("log", "logger"):
-            return NONE
+        if name in ("logging.getLogger",):
+            return VLib("Logger")
+        if name.startswith("logging.") or name.split(".")[0] in ("log", "logger") or name.startswith("Logger."):
+            return NONE  # logging calls are dropped (their arguments were evaluated already)
         raise OutOfSubset(f"call of unmodelled builtin/library function {name}")
     return h(it, fn.self_obj, args, kwargs)
 
@@ -1190,6 +1192,8 @@ def lib_getattr(it, obj: VLib, name: str):
         if obj.f["ktype"] != "ec":
             it.raise_(AttributeError, "'Ed25519PrivateKey' object has no attribute 'key_size'")
         return obj.f["key_size"]
+    if k == "Logger":
+        return VBuiltin(f"Logger.{name}", self_obj=obj)
     if k in ("File", "Struct", "HashCtx", "IntelHex", "AESGCM", "PrivateKey", "PublicKey", "environ", "Pattern", "ConfigParser", "EddsaSigner"):
         return VBuiltin(f"{k}.{name}", self_obj=obj)
     if k == "PublicNumbers":
